@@ -25,6 +25,13 @@
 (*                               copy, callback, classFree), DefragUnlink   *)
 (*                               (page leaves the class and is unmapped),   *)
 (*                               DefragEnd (counter deltas applied)         *)
+(*   DefragAllImproved           "for every class over the threshold: one   *)
+(*                               goroutine runs defragClass(that class)" =  *)
+(*                               DefragStart(c, _) for the classes with     *)
+(*                               PotFree >= TrigMin, each with its own dfr  *)
+(*                               (TraceAlloc checks class by class that a   *)
+(*                               defragClass run was started by the pass    *)
+(*                               for that class, once)                      *)
 (*   pageCacheRefill             Refill                                     *)
 (*                                                                         *)
 (* Named deviations from the code:                                         *)
@@ -162,12 +169,17 @@ Push(C, a) ==
             IN [C EXCEPT !.hdr[pg] = [h1 EXCEPT !.fl = a], !.freeSlots = @ + 1,
                          !.head = a, !.node = (a :> nd) @@ n2]
 
-\* follow one pointer field from n; <<Nil>> is appended when the walk leaves the nodes or does not end
-RECURSIVE Walk(_, _, _, _)
+\* follow one pointer field from n; <<Nil>> is appended when the walk leaves the nodes or does not end.
+\* (A recursive function, not a recursive operator: TLC extends the caller's context at every operator
+\* application, which makes a walk of n nodes cost n^2 look-ups; a function is applied in its own context.)
 Walk(node, n, fld, fuel) ==
-    IF n = Nil THEN <<>>
-    ELSE IF fuel = 0 \/ n \notin DOMAIN node THEN <<Nil>>
-    ELSE <<n>> \o Walk(node, node[n][fld], fld, fuel - 1)
+    LET dom == DOMAIN node
+        W[k \in 0..fuel, a \in dom \cup {Nil}] ==
+            IF a = Nil THEN <<>>
+            ELSE IF k = 0 THEN <<Nil>>
+            ELSE LET nx == node[a][fld] IN
+                 IF nx # Nil /\ nx \notin dom THEN <<a, Nil>> ELSE <<a>> \o W[k - 1, nx]
+    IN IF n # Nil /\ n \notin dom THEN <<Nil>> ELSE W[fuel, n]
 
 Fuel(C) == Cardinality(DOMAIN C.node) + 1
 GlobalWalk(C) == Walk(C.node, C.head, "next", Fuel(C))
@@ -433,32 +445,56 @@ Spec == Init /\ [][Next]_vars
 Listed(C) == DOMAIN C.node
 NoDup(s) == Cardinality({s[i] : i \in 1..Len(s)}) = Len(s)
 
+\* number of nodes met when following one pointer field from n; more than the nodes there are when the
+\* walk leaves the nodes (dom) or does not end (linear: the invariants are evaluated on long recorded runs,
+\* so DOMAIN is taken once by the caller)
+\* (A recursive function, not a recursive operator: TLC extends the caller's context at every operator
+\* application, which makes a walk of n nodes cost n^2 look-ups; a function is applied in its own context.)
+WalkLen(node, dom, n, fld, fuel) ==
+    LET W[k \in 0..fuel, a \in dom \cup {Nil}] ==
+            IF a = Nil THEN 0
+            ELSE IF k = 0 THEN Cardinality(dom) + 1
+            ELSE LET nx == node[a][fld] IN
+                 IF nx # Nil /\ nx \notin dom THEN Cardinality(dom) + 1 ELSE 1 + W[k - 1, nx]
+    IN IF n # Nil /\ n \notin dom THEN Cardinality(dom) + 1 ELSE W[fuel, n]
+
 \* a slot is never both live and free, never twice on a list, two live allocations never share a slot,
-\* live allocations carry distinct fill ids
+\* live allocations carry distinct fill ids.  (A walk that ends after exactly as many steps as there are nodes,
+\* all of them nodes, met every node once.)
 NoOverlapC(C) ==
-    /\ \A x \in C.live : x.a \notin Listed(C)
-    /\ Cardinality({x.a : x \in C.live}) = Cardinality(C.live)      \* no two live allocations in one slot
-    /\ Cardinality({x.id : x \in C.live}) = Cardinality(C.live)     \* distinct fill ids
-    /\ \A x \in C.live : x.id # 0
-    /\ NoDup(GlobalWalk(C))
-    /\ \A p \in Range(C.pages) : NoDup(PageWalk(C, p))
+    LET L == DOMAIN C.node
+        n == Cardinality(L)
+    IN /\ \A x \in C.live : x.a \notin L
+       /\ Cardinality({x.a : x \in C.live}) = Cardinality(C.live)      \* no two live allocations in one slot
+       /\ Cardinality({x.id : x \in C.live}) = Cardinality(C.live)     \* distinct fill ids
+       /\ \A x \in C.live : x.id # 0
+       /\ WalkLen(C.node, L, C.head, "next", n + 1) = n
+       /\ \A p \in Range(C.pages) : WalkLen(C.node, L, C.hdr[p].fl, "nip", n + 1) = Cardinality({a \in L : a[1] = p})
 NoOverlap == \A c \in Classes : NoOverlapC(cls[c])
 
-\* class list and per-page lists are consistent doubly linked views of the same free set
+\* class list and per-page lists are consistent doubly linked views of the same free set: every node is
+\* mirrored by its neighbours, the heads have no predecessor, both walks meet exactly the nodes (of the page)
 ListsWellFormedC(C) ==
-    LET G == GlobalWalk(C) IN
-    /\ Nil \notin Range(G)
-    /\ Range(G) = Listed(C)
-    /\ \A i \in 1..Len(G) : C.node[G[i]].prev = (IF i = 1 THEN Nil ELSE G[i - 1])
-    /\ \A p \in Range(C.pages) :
-          LET P == PageWalk(C, p) IN
-          /\ Nil \notin Range(P)
-          /\ Range(P) = {a \in Listed(C) : a[1] = p}
-          /\ \A i \in 1..Len(P) : C.node[P[i]].pip = (IF i = 1 THEN Nil ELSE P[i - 1])
-          /\ \A a \in Range(P) : a[2] < C.hdr[p].brk
-          /\ C.hdr[p].evac => P = <<>>
-    /\ \A a \in Listed(C) : a[1] \in Range(C.pages)
-    /\ NoDup(C.pages) /\ DOMAIN C.hdr = Range(C.pages)
+    LET L == DOMAIN C.node
+        n == Cardinality(L)
+        P == Range(C.pages)
+    IN /\ C.head # Nil => C.head \in L /\ C.node[C.head].prev = Nil
+       /\ \A a \in L :
+             LET nd == C.node[a] IN
+             /\ nd.next # Nil => nd.next \in L /\ C.node[nd.next].prev = a
+             /\ nd.prev # Nil => nd.prev \in L /\ C.node[nd.prev].next = a
+             /\ nd.prev = Nil => C.head = a
+             /\ nd.nip # Nil => nd.nip \in L /\ C.node[nd.nip].pip = a /\ nd.nip[1] = a[1]
+             /\ nd.pip # Nil => nd.pip \in L /\ C.node[nd.pip].nip = a /\ nd.pip[1] = a[1]
+             /\ a[1] \in P
+             /\ nd.pip = Nil => C.hdr[a[1]].fl = a
+             /\ a[2] < C.hdr[a[1]].brk
+       /\ WalkLen(C.node, L, C.head, "next", n + 1) = n
+       /\ \A p \in P :
+             /\ C.hdr[p].fl # Nil => C.hdr[p].fl \in L /\ C.hdr[p].fl[1] = p /\ C.node[C.hdr[p].fl].pip = Nil
+             /\ WalkLen(C.node, L, C.hdr[p].fl, "nip", n + 1) = Cardinality({a \in L : a[1] = p})
+             /\ C.hdr[p].evac => C.hdr[p].fl = Nil
+       /\ NoDup(C.pages) /\ DOMAIN C.hdr = P
 ListsWellFormed == \A c \in Classes : ListsWellFormedC(cls[c])
 
 RECURSIVE SumFree(_, _)
@@ -471,7 +507,7 @@ CountersExactC(C, k) ==
     /\ \A p \in Range(C.pages) :
           /\ C.hdr[p].used = Cardinality({x \in C.live : x.a[1] = p})
           /\ C.hdr[p].free = k - C.hdr[p].used
-          /\ ~C.hdr[p].evac => Cardinality({a \in Listed(C) : a[1] = p}) = C.hdr[p].brk - C.hdr[p].used
+          /\ ~C.hdr[p].evac => Cardinality({a \in DOMAIN C.node : a[1] = p}) = C.hdr[p].brk - C.hdr[p].used
 CountersExactClasses == \A c \in Classes : CountersExactC(cls[c], Cap[c])
 
 InFlight(kinds) == Cardinality({t \in Threads : pc[t].k \in kinds})
@@ -489,14 +525,17 @@ CountersExact == CountersExactClasses /\ AllocsExact /\ MmapsExact
 
 \* every live slice lies in a linked page, below the capacity, and is long enough; the bump page is unique
 CapacityOKC(C, c) ==
-    /\ \A x \in C.live : x.a[1] \in Range(C.pages) /\ x.a[2] >= 0 /\ x.a[2] < Cap[c] /\ x.len <= SlotData[c]
-    /\ \A p \in Range(C.pages) : C.hdr[p].brk <= Cap[c] /\ C.hdr[p].used <= C.hdr[p].brk
-    /\ C.cur # 0 => C.cur \in Range(C.pages) /\ C.hdr[C.cur].brk < Cap[c] /\ ~C.hdr[C.cur].evac
-    /\ \A p \in Range(C.pages) : (p # C.cur /\ ~C.hdr[p].evac) => C.hdr[p].brk = Cap[c]
+    LET P == Range(C.pages) IN
+    /\ {x.a[1] : x \in C.live} \subseteq P
+    /\ \A x \in C.live : x.a[2] >= 0 /\ x.a[2] < Cap[c] /\ x.len <= SlotData[c]
+    /\ \A p \in P : C.hdr[p].brk <= Cap[c] /\ C.hdr[p].used <= C.hdr[p].brk
+    /\ C.cur # 0 => C.cur \in P /\ C.hdr[C.cur].brk < Cap[c] /\ ~C.hdr[C.cur].evac
+    /\ \A p \in P : (p # C.cur /\ ~C.hdr[p].evac) => C.hdr[p].brk = Cap[c]
 CapacityOK == (\A c \in Classes : CapacityOKC(cls[c], c)) /\ (\A x \in privs : \A c \in Classes : x.len > SlotData[c])
 
 \* FreeReleaseDead: a free never finds used = 0
-FreeBranchLive == \A c \in Classes : \A x \in cls[c].live : x.a[1] \in DOMAIN cls[c].hdr => cls[c].hdr[x.a[1]].used >= 1
+FreeBranchLiveC(C) == \A p \in {x.a[1] : x \in C.live} \cap DOMAIN C.hdr : C.hdr[p].used >= 1
+FreeBranchLive == \A c \in Classes : FreeBranchLiveC(cls[c])
 
 \* PopMiddleDead: the slot popped by Malloc is the first of its page's list
 HeadIsPageHead == \A c \in Classes : cls[c].head # Nil /\ cls[c].head \in DOMAIN cls[c].node => cls[c].node[cls[c].head].pip = Nil
